@@ -8,18 +8,18 @@ import (
 
 // Flags are the inheritable settings that change the documented mapping.
 type Flags struct {
-	SkipCopy         bool `json:"skipCopy,omitempty"`
-	UseZero          bool `json:"useZero,omitempty"`
-	IgnoreUnexported bool `json:"ignoreUnexported,omitempty"`
-	IgnoreMissing    bool `json:"ignoreMissing,omitempty"`
-	MatchIgnoreCase  bool `json:"matchIgnoreCase,omitempty"`
-	UseUnderlying    bool `json:"useUnderlying,omitempty"`
-	EnumOff          bool `json:"enumOff,omitempty"`
+	SkipCopy         bool   `json:"skipCopy,omitempty"`
+	UseZero          bool   `json:"useZero,omitempty"`
+	IgnoreUnexported bool   `json:"ignoreUnexported,omitempty"`
+	IgnoreMissing    bool   `json:"ignoreMissing,omitempty"`
+	MatchIgnoreCase  bool   `json:"matchIgnoreCase,omitempty"`
+	UseUnderlying    bool   `json:"useUnderlying,omitempty"`
+	EnumOff          bool   `json:"enumOff,omitempty"`
 	EnumUnknown      string `json:"enumUnknown,omitempty"`
-	IZBasic          bool `json:"izBasic,omitempty"`
-	IZStruct         bool `json:"izStruct,omitempty"`
-	IZNillable       bool `json:"izNillable,omitempty"`
-	DefaultUpdate    bool `json:"defaultUpdate,omitempty"`
+	IZBasic          bool   `json:"izBasic,omitempty"`
+	IZStruct         bool   `json:"izStruct,omitempty"`
+	IZNillable       bool   `json:"izNillable,omitempty"`
+	DefaultUpdate    bool   `json:"defaultUpdate,omitempty"`
 }
 
 // FieldSpec is the documented source selection of one target field.
